@@ -395,11 +395,164 @@ async fn scenario(rep: &mut Report, rng: &mut Rng, tr: Transport, peer_kinds: &[
   let _ = tokio::time::timeout(Duration::from_secs(12), ctx.term()).await;
 }
 
+/// (poll) a ROUTER read by polling (RCVTIMEO 0 / 1 / 5 ms) or blocking while waves of peers connect at once and send
+/// their first message in the same instant: the identity frame of every message must be the identity its peer announced
+/// (the payload names the peer), anonymous peers get one stable placeholder, and a reply to the reported identity reaches
+/// that very peer.
+async fn poll_case(rep: &mut Report, tr: Transport, rcvtimeo: i32, wave: usize, waves: usize, with_anonymous: bool) {
+  let ctx = util::new_ctx();
+  let router = ctx.socket(SocketType::Router).unwrap();
+  util::set_i32(&router, opt::RCVTIMEO, rcvtimeo).await;
+  util::set_i32(&router, opt::SNDTIMEO, 1500).await;
+  router.set_option(opt::ROUTER_MANDATORY, true).await.unwrap();
+  let ep = match util::bind_fresh(&router, tr).await {
+    Ok(e) => e,
+    Err(e) => {
+      rep.inconclusive(format!("bind: {e}"));
+      return;
+    }
+  };
+  let total = wave * waves;
+  let r2 = router.clone();
+  // poller: records (identity frame, payload) for every message and answers to the reported identity
+  let poller = tokio::spawn(async move {
+    let mut seen: Vec<(Vec<u8>, Vec<u8>, bool)> = vec![];
+    let t0 = std::time::Instant::now();
+    while seen.len() < total && t0.elapsed() < util::scaled(Duration::from_secs(20)) {
+      match r2.recv_multipart().await {
+        Ok(m) => {
+          let v = to_vecs(m);
+          if v.len() >= 2 {
+            let id = v[0].clone();
+            let payload = v[v.len() - 1].clone();
+            let reply = msgs(&[id.clone(), [b"re:".to_vec(), payload.clone()].concat()]);
+            let routable = r2.send_multipart(reply).await.is_ok();
+            seen.push((id, payload, routable));
+          }
+        }
+        Err(_) => tokio::task::yield_now().await,
+      }
+    }
+    seen
+  });
+  let mut peers: Vec<(Socket, Option<Vec<u8>>, Vec<u8>)> = vec![];
+  for w in 0..waves {
+    let mut hs = vec![];
+    for k in 0..wave {
+      let anonymous = with_anonymous && k % 4 == 3;
+      let name = format!("peer-{:02}-{:02}", w, k).into_bytes();
+      let ctx2 = ctx.clone();
+      let ep2 = ep.clone();
+      hs.push(tokio::spawn(async move {
+        let d = ctx2.socket(SocketType::Dealer).unwrap();
+        util::set_i32(&d, opt::RCVTIMEO, 3000).await;
+        util::set_i32(&d, opt::SNDTIMEO, 1500).await;
+        if !anonymous {
+          d.set_option_raw(opt::ROUTING_ID, &name).await.unwrap();
+        }
+        let _ = d.connect(&ep2).await;
+        let sent = d.send(util::msg(name.clone(), false)).await.is_ok();
+        (d, if anonymous { None } else { Some(name.clone()) }, name, sent)
+      }));
+    }
+    for h in hs {
+      if let Ok((d, ann, name, sent)) = h.await {
+        if sent {
+          peers.push((d, ann, name));
+        }
+      }
+    }
+  }
+  let seen = match tokio::time::timeout(util::scaled(Duration::from_secs(25)), poller).await {
+    Ok(Ok(s)) => s,
+    _ => {
+      rep.inconclusive("poll case: the poller did not finish".to_string());
+      let _ = tokio::time::timeout(Duration::from_secs(12), ctx.term()).await;
+      return;
+    }
+  };
+  let mode = if rcvtimeo == 0 { "rcvtimeo=0" } else if rcvtimeo < 0 { "blocking" } else { "timed" };
+  rep.case(&("poll", tr, rcvtimeo, wave, waves, with_anonymous, seen.len()), true);
+  rep.count("poll_messages_observed", seen.len() as u64);
+  let mut wrong = 0usize;
+  let mut unroutable = 0usize;
+  let mut first: Option<String> = None;
+  for (id, payload, routable) in &seen {
+    let peer = peers.iter().find(|p| &p.2 == payload);
+    let Some((_, ann, _)) = peer else { continue };
+    match ann {
+      Some(a) => {
+        if id != a {
+          wrong += 1;
+          first.get_or_insert(format!("message of the peer that announced {:?} was prefixed with {:?}", String::from_utf8_lossy(a), String::from_utf8_lossy(id)));
+        }
+      }
+      None => {}
+    }
+    if !routable {
+      unroutable += 1;
+      first.get_or_insert(format!("reply addressed to the reported identity {:?} (peer {:?}) was refused as unroutable", String::from_utf8_lossy(id), String::from_utf8_lossy(payload)));
+    }
+  }
+  // every peer whose first message was seen must get its own reply
+  let mut misdelivered = 0usize;
+  for (d, _, name) in &peers {
+    if !seen.iter().any(|(_, p, r)| p == name && *r) {
+      continue;
+    }
+    match d.recv().await {
+      Ok(m) => {
+        let want = [b"re:".to_vec(), name.clone()].concat();
+        if m.data() != Some(&want[..]) {
+          misdelivered += 1;
+          first.get_or_insert(format!("peer {:?} received a reply meant for someone else: {:?}", String::from_utf8_lossy(name), String::from_utf8_lossy(m.data().unwrap_or(&[]))));
+        }
+      }
+      Err(_) => {
+        misdelivered += 1;
+        first.get_or_insert(format!("peer {:?} never received the reply the ROUTER accepted for its reported identity", String::from_utf8_lossy(name)));
+      }
+    }
+  }
+  if wrong > 0 {
+    rep.violation(format!("placeholder_or_foreign_identity_reported|first_message_at_connect|{}", mode), format!("{} of {} first messages carried an identity other than the announced one ({} peers per wave over {}, RCVTIMEO {}): {}", wrong, seen.len(), wave, tr.name(), rcvtimeo, first.clone().unwrap_or_default()), json!({"transport": tr.name(), "rcvtimeo": rcvtimeo, "wave": wave}));
+  }
+  if unroutable > 0 || misdelivered > 0 {
+    rep.violation(format!("reply_to_reported_identity_lost|first_message_at_connect|{}", mode), format!("{} replies unroutable, {} not delivered to the right peer, of {} ({} peers per wave over {}, RCVTIMEO {}): {}", unroutable, misdelivered, seen.len(), wave, tr.name(), rcvtimeo, first.unwrap_or_default()), json!({"transport": tr.name(), "rcvtimeo": rcvtimeo, "wave": wave}));
+  }
+  if seen.len() < peers.len() {
+    let missing: Vec<String> = peers.iter().filter(|p| !seen.iter().any(|(_, pl, _)| pl == &p.2)).map(|p| format!("{}{}", String::from_utf8_lossy(&p.2), if p.1.is_none() { "(anon)" } else { "" })).collect();
+    rep.inconclusive(format!("poll case: only {} of {} first messages were observed within the watchdog over {} rcvtimeo={}; missing {:?}", seen.len(), peers.len(), tr.name(), rcvtimeo, missing));
+  }
+  let _ = tokio::time::timeout(Duration::from_secs(12), ctx.term()).await;
+}
+
 fn main() {
   let args = Args::parse();
   util::install_panic_watch();
   let mut rep = Report::new("C11", &args.shard_name());
   let mut rng = Rng::new(args.seed.wrapping_mul(236887691).wrapping_add(args.shard as u64));
+  if args.only.as_deref() == Some("poll") {
+    let rt = util::runtime(4);
+    let n = if args.thorough() { 48 } else { 12 };
+    for i in 0..n {
+      if !args.mine(i) {
+        continue;
+      }
+      let tr = [Transport::Tcp, Transport::Ipc, Transport::Tcp, Transport::Inproc][i % 4];
+      let rcvtimeo = [0, 0, 1, -1, 0, 5][i % 6];
+      util::guarded(&rt, poll_case(&mut rep, tr, rcvtimeo, if i % 2 == 0 { 16 } else { 6 }, if args.thorough() { 6 } else { 4 }, i % 3 == 2));
+    }
+    util::cleanup_ipc_dir();
+    for p in util::take_panics() {
+      if p.in_rzmq {
+        rep.violation(format!("panic|{}", util::panic_site(&p.location)), format!("panic at {}: {}", p.location, p.message), json!({"frames": p.backtrace_head}));
+      }
+    }
+    rep.merge_hooks();
+    rep.emit();
+    return;
+  }
   let rt = util::runtime(2);
   let n = if args.thorough() { 160 } else { 32 };
   for i in 0..n {
